@@ -295,6 +295,53 @@ async fn run_server_cell(c: &Cell) -> Result<Observed, String> {
     Ok(Observed { admitted, version, roles_seen, handler_calls, detail })
 }
 
+/// TLS session resumption must not carry an authentication verdict from one rodbus server to
+/// another: a peer that server A (trusting authority A / pinning certificate A) admitted resumes
+/// nothing on server B of the same process, which trusts another authority / pins another
+/// certificate. The peer is one rustls client configuration (its session store and tickets are
+/// shared by both connections); admission is judged by an answered Modbus request.
+pub async fn resumption_probe(versions: PeerVersions, self_signed: bool) -> Result<(bool, bool, String), String> {
+    let mk = |trust: &'static str| Cell { min13: false, self_signed, authz: false, rodbus_is_server: true, peer: versions, cert: CertKind::Valid, spawn: false, ctor: 0 };
+    let (trust_a, present, trust_b) = if self_signed { ("ss_client", "ss_client", "ss_client_other") } else { ("ca_a", "cli_operator", "ca_b") };
+    let a = start_tls_server(&mk(trust_a), trust_a, AddressFilter::Any, "127.0.0.1", 4).await?;
+    let b = start_tls_server(&mk(trust_b), trust_b, AddressFilter::Any, "127.0.0.1", 4).await?;
+    let config = peer_client_config(versions, present);
+    let mut admitted = vec![];
+    let mut detail = String::new();
+    for (which, addr) in [("A", a.addr), ("B", b.addr)] {
+        let connector = tokio_rustls::TlsConnector::from(config.clone());
+        let tcp = connect_from("127.0.0.1", addr).await.map_err(|e| format!("connect: {e}"))?;
+        let name = rustls::pki_types::ServerName::try_from("test.com").unwrap();
+        let mut ok = false;
+        match tokio::time::timeout(STEP_TIMEOUT, connector.connect(name, tcp)).await {
+            Err(_) => detail.push_str(&format!("{which}: handshake timed out; ")),
+            Ok(Err(e)) => detail.push_str(&format!("{which}: handshake failed: {e}; ")),
+            Ok(Ok(mut tls)) => {
+                let req = mbap_frame(0x0102, 1, &SENTINEL);
+                if write_all(&mut tls, &req).await {
+                    match read_n(&mut tls, 13, Duration::from_millis(1500)).await {
+                        ReadOutcome::Bytes(bts) => {
+                            ok = bts[..2] == [1, 2] && bts[7] == 3;
+                            detail.push_str(&format!("{which}: reply {}; ", hex(&bts)));
+                        }
+                        other => detail.push_str(&format!("{which}: no reply: {other:?}; ")),
+                    }
+                }
+                // a second exchange gives a TLS 1.3 server time to deliver its session tickets
+                if ok {
+                    let _ = write_all(&mut tls, &mbap_frame(0x0103, 1, &SENTINEL)).await;
+                    let _ = read_n(&mut tls, 13, Duration::from_millis(1500)).await;
+                }
+                let _ = tls.shutdown().await;
+            }
+        }
+        admitted.push(ok);
+    }
+    let _ = a.handle.shutdown().await;
+    let _ = b.handle.shutdown().await;
+    Ok((admitted[0], admitted[1], detail))
+}
+
 /// C08 over a real TLS server with authorization: the role the policy is asked about is the role
 /// of the certificate, character for character; a request the policy denies changes nothing and
 /// is answered with exception 01
@@ -578,7 +625,7 @@ pub fn check_c09(tier: &str) -> i32 {
         "C09",
         tier,
         "exploration",
-        "the whole configuration grid {min version 1.2, 1.3} x {authority, self-signed} x {with, without authorization} x {rodbus is client, server} x peer offers {TLS1.2 only, TLS1.3 only, both} x peer certificate {valid, wrong authority, wrong name, expired, not yet valid, role-less, differently roled} = 336 cells over real loopback sockets: the rodbus endpoint is built with the unmodified public API, the peer is an independent rustls endpoint with explicit protocol versions and a permissive verifier, so the verdict is rodbus' alone; admission is judged by an answered Modbus request, the negotiated version by the peer, the role by an authorization handler; cells that are not meaningful are listed as n/a; per server configuration two more peers send Modbus bytes instead of / in the middle of the handshake; outside the grid: a certificate issued by the pinned self-signed certificate, certificates with the pinned certificate's subject / subject and key but other bytes, client chains in which an unrelated certificate carrying another role follows the client certificate, and client configurations built with the legacy constructor, without an expected server name and with an IP literal as the expected name; a client certificate whose role has a leading blank and a capital letter. distinct = distinct (cell, observation) pairs",
+        "the whole configuration grid {min version 1.2, 1.3} x {authority, self-signed} x {with, without authorization} x {rodbus is client, server} x peer offers {TLS1.2 only, TLS1.3 only, both} x peer certificate {valid, wrong authority, wrong name, expired, not yet valid, role-less, differently roled} = 336 cells over real loopback sockets: the rodbus endpoint is built with the unmodified public API, the peer is an independent rustls endpoint with explicit protocol versions and a permissive verifier, so the verdict is rodbus' alone; admission is judged by an answered Modbus request, the negotiated version by the peer, the role by an authorization handler; cells that are not meaningful are listed as n/a; per server configuration two more peers send Modbus bytes instead of / in the middle of the handshake; outside the grid: a certificate issued by the pinned self-signed certificate, certificates with the pinned certificate's subject / subject and key but other bytes, client chains in which an unrelated certificate carrying another role follows the client certificate, and client configurations built with the legacy constructor, without an expected server name and with an IP literal as the expected name; a client certificate whose role has a leading blank and a capital letter; one resuming rustls client against two servers of the same process that trust different authorities / pin different certificates. distinct = distinct (cell, observation) pairs",
     );
     let thorough = rep.thorough();
     let mut cells = all_cells(false);
@@ -670,6 +717,34 @@ pub fn check_c09(tier: &str) -> i32 {
         }
     }
     rep.phase("grid", st, json!({}));
+    // session resumption across two differently configured servers of one process
+    {
+        let mut st = Stats::default();
+        for versions in [PeerVersions::Tls12Only, PeerVersions::Tls13Only, PeerVersions::Both] {
+            for self_signed in [false, true] {
+                let r = rt().block_on(resumption_probe(versions, self_signed));
+                st.evaluations += 1;
+                st.class("resumption-across-servers");
+                st.observe(&(versions, self_signed, r.as_ref().map(|x| (x.0, x.1)).ok()));
+                match r {
+                    Err(e) => st.violation(Violation { signature: "MACHINERY:resumption-probe".into(), summary: e, replay: json!({}) }),
+                    Ok((a, b, detail)) => {
+                        if !a {
+                            st.violation(Violation { signature: format!("valid-peer-refused:server:resumption-probe:{versions:?}"), summary: format!("the first server refused its valid peer: {detail}"), replay: json!({"kind": "c09-resumption", "versions": versions, "self_signed": self_signed}) });
+                        }
+                        if b {
+                            st.violation(Violation {
+                                signature: format!("peer-admitted:server:resumed-from-another-server:{versions:?}"),
+                                summary: format!("a peer admitted by a server trusting {} was then served by a server of the same process that trusts something else ({}): {detail}", if self_signed { "its pinned certificate" } else { "authority A" }, if self_signed { "another pinned certificate" } else { "authority B" }),
+                                replay: json!({"kind": "c09-resumption", "versions": versions, "self_signed": self_signed}),
+                            });
+                        }
+                    }
+                }
+            }
+        }
+        rep.phase("session resumption across two differently configured servers", st, json!({}));
+    }
     let mut st = Stats::default();
     let mut pr = probes.lock().unwrap().clone();
     pr.sort_by_key(|x| format!("{:?}{}", x.0, x.1));
@@ -698,6 +773,23 @@ pub fn check_c09(tier: &str) -> i32 {
 }
 
 pub fn replay_c09(v: &serde_json::Value) -> Vec<(String, String)> {
+    if v["kind"] == "c09-resumption" {
+        let versions: PeerVersions = serde_json::from_value(v["versions"].clone()).unwrap();
+        let self_signed = v["self_signed"].as_bool().unwrap();
+        return match rt().block_on(resumption_probe(versions, self_signed)) {
+            Err(e) => vec![("MACHINERY:resumption-probe".into(), e)],
+            Ok((a, b, detail)) => {
+                let mut out = vec![];
+                if !a {
+                    out.push(("valid-peer-refused:server:resumption-probe".to_string(), detail.clone()));
+                }
+                if b {
+                    out.push(("peer-admitted:server:resumed-from-another-server".to_string(), detail));
+                }
+                out
+            }
+        };
+    }
     let c: Cell = serde_json::from_value(v["cell"].clone()).unwrap();
     if v["kind"] == "c09-probe" {
         let mid = v["mid"].as_bool().unwrap();
